@@ -11,7 +11,7 @@ pub const DEF: PropDef = PropDef {
     id: "C11",
     run,
     oracle,
-    rule: "cases = sequences of 1..8 (thorough: up to 12, and a tail of up to 300) self-delimiting packets mixing V5, V7, IPFIX and V9 (count = number of flowsets) built from a conformant plan, with template-before-data dependencies across packets, redefinitions, byte-identical repeats of up to two packets (retransmissions: adjacent, and again further down the sequence), and optionally a last packet carrying data for an unknown template (an error ends a buffer, so it is only comparable in last position). Oracle: for every partition of the sequence into consecutive calls (all 2^(n-1) for n <= 8, 64 sampled by a deterministic stride beyond), the concatenated results (compared through their complete Debug rendering, which includes padding, plus to_be_bytes) and the final cache state equal those of the one-packet-per-call run on a fresh parser. non-trivial = n >= 3, >= 2 versions present, and some packet decodes data under a template defined by an earlier packet of the sequence; distinct by digest.",
+    rule: "cases = sequences of 1..8 (thorough: up to 12, and a tail of up to 300) self-delimiting packets mixing V5, V7, IPFIX and V9 (count = number of flowsets) built from a conformant plan, with template-before-data dependencies across packets, redefinitions, header-only packets (set-less IPFIX messages, V9 packets without flowsets, V5/V7 without records; one packet in sixteen, and dedicated chains where six in seven are header-only), byte-identical repeats of up to two packets (retransmissions: adjacent, and again further down the sequence), and optionally a last packet carrying data for an unknown template (an error ends a buffer, so it is only comparable in last position). Oracle: for every partition of the sequence into consecutive calls (all 2^(n-1) for n <= 8, 64 sampled by a deterministic stride beyond), the concatenated results (compared through their complete Debug rendering, which includes padding, plus to_be_bytes) and the final cache state equal those of the one-packet-per-call run on a fresh parser. non-trivial = n >= 3, >= 2 versions present, and some packet decodes data under a template defined by an earlier packet of the sequence; distinct by digest.",
     assumptions: &["Debug rendering of result elements is complete (derived on every result type) and deterministic (results hold no hash maps)"],
 };
 
@@ -130,6 +130,12 @@ pub fn oracle(case: &Case) -> Outcome {
 }
 
 pub fn seq_case(min: usize, max: usize, max_recs: usize) -> BoxedStrategy<Case> {
+    seq_case_with(min, max, max_recs, false)
+}
+
+/// `minimal_heavy`: six packets in seven are header-only (set-less IPFIX messages of 16 bytes,
+/// V9 packets without flowsets, V5/V7 packets without records)
+pub fn seq_case_with(min: usize, max: usize, max_recs: usize, minimal_heavy: bool) -> BoxedStrategy<Case> {
     let cfg = StreamCfg {
         mix: Mix { fixed: 3, v9: 4, ipfix: 4 },
         ids: (2, 4),
@@ -140,7 +146,12 @@ pub fn seq_case(min: usize, max: usize, max_recs: usize) -> BoxedStrategy<Case> 
         max_recs,
         mixed_kinds: false,
     };
-    let call = proptest::collection::vec(gen::pkt_plan(cfg.mix, cfg.max_sets, cfg.max_recs), min..=max);
+    let pk = if minimal_heavy {
+        gen::pkt_plan_minimal_heavy(Mix { fixed: 1, v9: 2, ipfix: 6 }, cfg.max_sets, cfg.max_recs)
+    } else {
+        gen::pkt_plan(cfg.mix, cfg.max_sets, cfg.max_recs)
+    };
+    let call = proptest::collection::vec(pk, min..=max);
     // retransmissions: up to two packets are repeated (1-2 extra byte-identical copies right
     // after the original), as exporters do with template refreshes
     let dups = proptest::collection::vec((any::<proptest::sample::Index>(), 1usize..=2), 0..=2);
@@ -187,6 +198,8 @@ pub fn run(ctx: &Ctx) {
     ctx.replay_findings(&oracle);
     ctx.search("all-partitions-n<=8", ctx.n(60_000, 5_000_000), &|| seq_case(1, 7, 3), &oracle);
     ctx.search("sampled-partitions-n<=12", ctx.n(6_000, 600_000), &|| seq_case(8, 11, 2), &oracle);
+    ctx.search("header-only-packet-chains-n<=8", ctx.n(4_000, 400_000), &|| seq_case_with(4, 8, 2, true), &oracle);
+    ctx.search("header-only-packet-chains-n<=40", ctx.n(600, 60_000), &|| seq_case_with(9, 40, 2, true), &oracle);
     if ctx.thorough() {
         ctx.search("long-sequences", 20_000, &|| seq_case(50, 300, 1), &oracle);
     } else {
